@@ -215,10 +215,10 @@ def distance(ctx, cname):
         each = q.at_pos(tr, dyn[0].result)
         # the total: a running sum or sum(...) of one distance per feature, however the repetition is written
         acc = [a for a in T.walk(v) if (a[0] == "loopvar" and isinstance(a[2], str) and a[2].startswith("$")) or (a[0] == "call" and a[1] in ("sum", "numpy.sum"))]
-        acc = [a for a in acc if T.same(v, atom(a) / dim)]
+        acc = [a for a in acc if q.sum_view(tr, atom(a)) is not None]
         sv = q.sum_view(tr, atom(acc[0])) if len(acc) == 1 else None
-        if ctx.anchor(site, "current_distance = <total of a per-feature repetition> / d [%s]" % cname, sv is not None, q.short(v, 120), cd[0]):
-            ok = (sv[0] == each or T.same(sv[0], each)) and T.same(sv[1], dim)
+        if ctx.anchor(site, "current_distance is computed from the total of a per-feature repetition [%s]" % cname, sv is not None, q.short(v, 120), cd[0]):
+            ok = T.same(v, atom(acc[0]) / dim) and (sv[0] == each or T.same(sv[0], each)) and T.same(sv[1], dim)
             ctx.ob("FRM", site, "distance = (1/d) * sum of the feature distances [%s]" % cname, ok, "summand %s over %s positions" % (q.short(sv[0], 80), q.short(sv[1], 40)), cd[0])
         # the per-feature distances are what the next update compares with
         pf = tr.stores("_prev_feature_distances")
